@@ -23,6 +23,17 @@ def run(tier):
             raise common.AnalysisBroken('C01 negative control: against a specification that is off by one everywhere only %d '
                                         '(rule, operation) pairs are reported and %s pass' % (c['flagged'], c['wrongly_passed']))
         ck.ok('control', sample={'control': 'off-by-one specification', 'pairs_reported': c['flagged'], 'pairs_passing': 0})
+    placed = sum(x['res']['placed'] for x in r)
+    unplaced = sum(x['res']['unplaced'] for x in r)
+    unp = {}
+    for x in r:
+        for k, v in x['res']['unplaced_ops'].items():
+            unp[k] = unp.get(k, 0) + v
+    ck.floor('path verdicts (element placement) decided', placed, 1500 if tier == 'quick' else 10000)
+    ck.note('placement left undecided on %d paths %s' % (unplaced, dict(sorted(unp.items()))))
+    ck.extra['placement_decided'] = placed
+    ck.extra['placement_undecided'] = unplaced
+    ck.extra['placement_undecided_by_operation'] = unp
     ck.floor('public operations with a specified law', len(ops), 40)
     ck.floor('path verdicts (size / position / at) decided', decided, 5000 if tier == 'quick' else 30000)
     ck.note('operations covered: %s' % ', '.join(sorted(ops)))
